@@ -13,6 +13,7 @@ class HistoryProp(Prop):
     ref_steps = 4000
     min_decided = 3
     shrink_budget = 150
+    skip_undecided = False       # only for histories whose queries are side-effect free
 
     def selftest(self, tier):
         self._tier = tier
@@ -50,7 +51,7 @@ class HistoryProp(Prop):
 
     def decide(self, case):
         ops = case['ops']
-        n, robs, iobs, failure, ref = H.run_history(ops, self.ref_steps)
+        n, robs, iobs, failure, ref = H.run_history(ops, self.ref_steps, skip_undecided=self.skip_undecided)
         if failure is not None:
             kind, i, op, r, o = failure
             return FAIL(kind, {'history': [H.show_op(x) for x in ops[:i + 1]], 'failing_op': H.show_op(op),
